@@ -289,8 +289,8 @@ def e_laser(c):
 
 
 PARTS = [
-    Part("mzm", e_mzm, s_mzm(), quick=1200, thorough=8000, shards=8, rule="closed-form transfer on signal and noise, passivity, ER, periodicity, containers"),
-    Part("mzm_err", e_mzm_err, s_mzm_err, quick=60, thorough=300, shards=1, rule="invalid pol / non-optical input"),
-    Part("pm", e_pm, s_pm(), quick=1200, thorough=8000, shards=8, rule="rotation of signal and noise, power invariance, additivity, containers"),
-    Part("laser", e_laser, s_laser(), quick=500, thorough=3000, shards=4, rule="|E|^2=P without RIN, spectral peak at df, seeded repeat, Nyquist guard"),
+    Part("mzm", e_mzm, s_mzm(), quick=1200, thorough=48000, shards=8, rule="closed-form transfer on signal and noise, passivity, ER, periodicity, containers"),
+    Part("mzm_err", e_mzm_err, s_mzm_err, quick=60, thorough=1800, shards=1, rule="invalid pol / non-optical input"),
+    Part("pm", e_pm, s_pm(), quick=1200, thorough=48000, shards=8, rule="rotation of signal and noise, power invariance, additivity, containers"),
+    Part("laser", e_laser, s_laser(), quick=500, thorough=18000, shards=4, rule="|E|^2=P without RIN, spectral peak at df, seeded repeat, Nyquist guard"),
 ]
